@@ -330,7 +330,7 @@ def implCmp (rnd : Rat → Rat) (ci : Bool) (rec : Bytes) (op : Op) (q : Lit) : 
   | .bool =>
     match rec with
     | [] => (match op with | .eq => .ok false | .ne => .ok true | _ => .err "invalid-operator")
-    | t :: _ => if t ≠ tBool then .err "expected-bool" else fopOnBool rec q op
+    | t :: _ => if t ≠ tBool then .ok false else fopOnBool rec q op   -- fix 0ee498e: a non-boolean record is no match (was: error "expected-bool")
   | .signed | .unsigned | .float => fopOnNumber rnd rec q op
   | .backfill => .ok false
   | .other => .err "could-not-complete-op"
